@@ -31,7 +31,7 @@ NON_JS_BREAKS = "\x0b\x0c\x1c\x1d\x1e\x85\u2028\u2029"
 
 
 def budget(tier):
-    return 4000 if tier == "quick" else 40000
+    return 6000 if tier == "quick" else 50000
 
 
 def valid(case):
@@ -223,6 +223,11 @@ def _col0(case, f):
     return bool(d.get("column0_insert_below_inserted_line")) and f.get("kind") == "typescript_apply_differs"
 
 
+def _astral(case, f):
+    """Some text of the case holds a character outside the BMP (in-line diff offsets count code points, JavaScript counts UTF-16 units)."""
+    return any(ord(ch) > 0xFFFF for t in texts_of(case) for ch in t)
+
+
 def _non_js_linebreak(case, f):
     return bool((f.get("detail") or {}).get("text_has_non_js_linebreak"))
 
@@ -243,7 +248,7 @@ def _proto_key(case, f):
 
 
 DISCRIMINATORS = {"text_has_non_js_linebreak": _non_js_linebreak, "action_take_max": _take_max, "object_key___proto__": _proto_key,
-                  "column0_insert_below_inserted_line": _col0}
+                  "column0_insert_below_inserted_line": _col0, "text_has_astral_character": _astral}
 
 
 def finalize(tier, merged):
